@@ -42,35 +42,26 @@ theorem callFunc_unfold (funcs : List Func) (depth fuel : Nat) (name : String) (
     (s s1 : St) (f : Func) (vals : List Val)
     (hf : funcs.find? (fun f => f.name == name && f.params.length == args.length) = some f)
     (hd : (depth == Gen.RECURSION_LIMIT) = false)
-    (ha : evalArgs funcs depth fuel args { s with ctxCache := (cacheTake s.ctxCache f.key).2 } = (.ok vals, s1)) :
+    (ha : evalArgs funcs depth fuel args s = (.ok vals, s1)) :
     callFunc funcs depth (fuel + 1) name args s =
-      finishCall f s1 (execBlock funcs (depth + 1) fuel f.body f.catches (calleeInit f vals (cacheTake s.ctxCache f.key).1 s1)) := by
-  simp only [callFunc, hf]
-  simp [hd]
-  rw [ha]
+      finishCall s1 (execBlock funcs (depth + 1) fuel f.body f.catches (calleeInit f vals s1)) := by
+  simp [callFunc, hf, hd, bind, ha]
 
-/-- the state in which the arguments of a call of `f` are evaluated: a context of `f` is checked out of its cache -/
-def takeCtx (f : Func) (s : St) : St := { s with ctxCache := (cacheTake s.ctxCache f.key).2 }
-
-/-- `callFunc` when an argument fails: the checked-out context goes back to the cache, the error propagates -/
+/-- `callFunc` when an argument fails: the error propagates from the state the failing argument left -/
 theorem callFunc_arg_error (funcs : List Func) (depth fuel : Nat) (name : String) (args : List Expr)
     (s s1 : St) (f : Func) (c : Nat) (a : Bytes)
     (hf : funcs.find? (fun f => f.name == name && f.params.length == args.length) = some f)
     (hd : (depth == Gen.RECURSION_LIMIT) = false)
-    (ha : evalArgs funcs depth fuel args (takeCtx f s) = (.err c a, s1)) :
-    callFunc funcs depth (fuel + 1) name args s =
-      (.err c a, { s1 with ctxCache := cachePut s1.ctxCache f.key (cacheTake s.ctxCache f.key).1 }) := by
-  unfold takeCtx at ha
-  simp only [callFunc, hf]
-  simp [hd]
-  rw [ha]
+    (ha : evalArgs funcs depth fuel args s = (.err c a, s1)) :
+    callFunc funcs depth (fuel + 1) name args s = (.err c a, s1) := by
+  simp [callFunc, hf, hd, bind, ha]
 
-theorem handlerExit_fst (r : Res Flow × St) : (handlerExit r).1 = r.1 := by
+theorem handlerExit_fst (o : LastErr) (r : Res Flow × St) : (handlerExit o r).1 = r.1 := by
   unfold handlerExit; split <;> rfl
 
-theorem handlerExit_ok (fl : Flow) (s : St) : handlerExit (.ok fl, s) = (.ok fl, { s with lastErr := LastErr.clear }) := rfl
+theorem handlerExit_ok (o : LastErr) (fl : Flow) (s : St) : handlerExit o (.ok fl, s) = (.ok fl, { s with lastErr := o }) := rfl
 
-theorem handlerExit_err (c : Nat) (a : Bytes) (s : St) : handlerExit (.err c a, s) = (.err c a, s) := rfl
+theorem handlerExit_err (o : LastErr) (c : Nat) (a : Bytes) (s : St) : handlerExit o (.err c a, s) = (.err c a, s) := rfl
 
 /-- the built-in `error` reads the context's record and leaves the state alone -/
 theorem eval_error (funcs : List Func) (depth fuel : Nat) (s : St) :
@@ -536,7 +527,7 @@ theorem eval_sameIters_step (funcs : List Func) (fuel : Nat) (ih : AllPres SameI
   · -- item
     exact itemAt_pres hR _ (ihE _ _) _
 
-theorem finishCall_iters (f : Func) (caller : St) (r : Res Flow × St) : (finishCall f caller r).2.iters = caller.iters := by
+theorem finishCall_iters (caller : St) (r : Res Flow × St) : (finishCall caller r).2.iters = caller.iters := by
   unfold finishCall; cases r.1 <;> rfl
 
 theorem callFunc_sameIters_step (funcs : List Func) (fuel : Nat) (ih : AllPres SameIters funcs fuel) (depth : Nat) (name : String) (args : List Expr) :
@@ -546,17 +537,11 @@ theorem callFunc_sameIters_step (funcs : List Func) (fuel : Nat) (ih : AllPres S
   unfold callFunc
   split
   · exact Pres.lift hR _
-  · rename_i f hfind
-    refine Pres.ite _ (Pres.failE hR _ _) ?_
-    constructor
-    intro caller
-    have h1 := (ihA depth args).h { caller with ctxCache := (cacheTake caller.ctxCache f.key).2 }
-    dsimp only
-    split <;> rename_i heq <;> rw [heq] at h1
-    · unfold SameIters; rw [finishCall_iters]; exact h1
-    · exact h1
-    · exact h1
-    · exact h1
+  · split
+    · exact Pres.failE hR _ _
+    · apply Pres.bind hR (ihA _ _)
+      intro vals
+      exact ⟨fun caller => by unfold SameIters; rw [finishCall_iters]⟩
 
 theorem evalArgs_sameIters_step (funcs : List Func) (fuel : Nat) (ih : AllPres SameIters funcs fuel) (depth : Nat) (args : List Expr) :
     Pres SameIters (evalArgs funcs depth (fuel + 1) args) := by
@@ -669,7 +654,7 @@ theorem exec_sameIters_step (funcs : List Func) (fuel : Nat) (ih : AllPres SameI
     refine Pres.h (R := SameIters) ?_ s
     split
     · exact Pres.pure hR _
-    · exact Pres.bind hR (Pres.modifySt (fun _ => rfl)) (fun _ => Pres.pure hR _)
+    · exact Pres.pure hR _
     · -- letS
       have hmap : ∀ (n : String) (tbl' : Val) (st : St), SameIters st { st with iters := st.iters.map fun x => if x.it == n then { x with priv := tbl' } else x } := by
         intro n tbl' st
@@ -741,8 +726,8 @@ structure Frame (R : St → St → Prop) : Prop where
   rel : StRel R
   upd : ∀ s s' : St, s'.out = s.out → s'.ctl = s.ctl → R s s'
   push : ∀ (s : St) (bs : Bytes), R s { s with out := bs :: s.out }
-  call : ∀ (f : Func) (vals : List Val) (rec0 : LastErr) (s1 : St) (r : Res Flow × St),
-    R (calleeInit f vals rec0 s1) r.2 → R s1 (finishCall f s1 r).2
+  call : ∀ (f : Func) (vals : List Val) (s1 : St) (r : Res Flow × St),
+    R (calleeInit f vals s1) r.2 → R s1 (finishCall s1 r).2
 
 section frame
 variable {R : St → St → Prop}
@@ -808,19 +793,11 @@ theorem callFunc_frame_step (hF : Frame R) (funcs : List Func) (fuel : Nat) (ih 
   split
   · exact Pres.lift hR _
   · rename_i f hfind
-    refine Pres.ite _ (Pres.failE hR _ _) ?_
-    constructor
-    intro caller
-    have h0 : R caller { caller with ctxCache := (cacheTake caller.ctxCache f.key).2 } := hF.upd _ _ rfl rfl
-    have h1 := (ihA depth args).h { caller with ctxCache := (cacheTake caller.ctxCache f.key).2 }
-    dsimp only
-    split <;> rename_i heq <;> rw [heq] at h1
-    · rename_i vals s1
-      refine hR.trans (hR.trans h0 h1) ?_
-      exact hF.call f vals _ s1 _ ((ihB (depth + 1) f.body f.catches).h _)
-    · exact hR.trans (hR.trans h0 h1) (hF.upd _ _ rfl rfl)
-    · exact hR.trans (hR.trans h0 h1) (hF.upd _ _ rfl rfl)
-    · exact hR.trans (hR.trans h0 h1) (hF.upd _ _ rfl rfl)
+    split
+    · exact Pres.failE hR _ _
+    · apply Pres.bind hR (ihA _ _)
+      intro vals
+      exact ⟨fun caller => hF.call f vals caller _ ((ihB (depth + 1) f.body f.catches).h _)⟩
 
 theorem evalArgs_frame_step (hF : Frame R) (funcs : List Func) (fuel : Nat) (ih : AllPres R funcs fuel) (depth : Nat) (args : List Expr) :
     Pres R (evalArgs funcs depth (fuel + 1) args) := by
@@ -908,7 +885,7 @@ theorem exec_frame_step (hF : Frame R) (funcs : List Func) (fuel : Nat) (ih : Al
     refine Pres.h (R := R) ?_ s
     split
     · exact Pres.pure hR _
-    · exact Pres.bind hR (Pres.modifySt (fun _ => hF.upd _ _ rfl rfl)) (fun _ => Pres.pure hR _)
+    · exact Pres.pure hR _
     · -- letS
       repeat (first | frame_core hF hR | exact ihE _ _)
     · repeat (first | frame_core hF hR | exact ihE _ _)
@@ -968,8 +945,8 @@ theorem outGrows_frame : Frame OutGrows where
   rel := ⟨fun _ => ⟨[], rfl⟩, fun ⟨l1, h1⟩ ⟨l2, h2⟩ => ⟨l2 ++ l1, by rw [h2, h1, List.append_assoc]⟩⟩
   upd := fun _ _ ho _ => ⟨[], by simpa using ho⟩
   push := fun _ bs => ⟨[bs], rfl⟩
-  call := fun f vals rec0 s1 r ⟨l, h⟩ => ⟨l, by
-    have e : (finishCall f s1 r).2.out = r.2.out := by unfold finishCall; cases r.1 <;> rfl
+  call := fun f vals s1 r ⟨l, h⟩ => ⟨l, by
+    have e : (finishCall s1 r).2.out = r.2.out := by unfold finishCall; cases r.1 <;> rfl
     rw [e, h]; rfl⟩
 
 /-- the `for`/`while` control entries a run could leave behind are untouched -/
@@ -979,7 +956,7 @@ theorem sameCtl_frame : Frame SameCtl where
   rel := ⟨fun _ => rfl, fun h1 h2 => by unfold SameCtl at *; rw [h2, h1]⟩
   upd := fun _ _ _ hc => hc
   push := fun _ _ => rfl
-  call := fun f vals rec0 s1 r _ => by unfold SameCtl finishCall; cases r.1 <;> rfl
+  call := fun f vals s1 r _ => by unfold SameCtl finishCall; cases r.1 <;> rfl
 
 /-- `St.output` of a later state extends that of an earlier one -/
 theorem output_prefix_of_outGrows (s s' : St) (h : OutGrows s s') : ∃ t : Bytes, s'.output = s.output ++ t := by
